@@ -16,6 +16,7 @@ import (
 	"github.com/thought-machine/please/src/parse"
 	"github.com/thought-machine/please/src/remote"
 	"github.com/thought-machine/please/src/test"
+	"github.com/thought-machine/please/src/verifhook"
 )
 
 var log = logging.Log
@@ -82,6 +83,7 @@ func Run(targets, preTargets []core.BuildLabel, state *core.BuildState, config *
 	go func() {
 		for task := range parses {
 			go func(task core.ParseTask) {
+				verifhook.Point("dispatch.parse")
 				state.Parses().Add(1)
 				parse.Parse(state, task.Label, task.Dependent, task.Mode)
 				state.Parses().Add(-1)
@@ -99,6 +101,7 @@ func Run(targets, preTargets []core.BuildLabel, state *core.BuildState, config *
 				isRemote := anyRemote && !task.Target.Local
 				startAction(isRemote)
 				defer completeAction(isRemote, task)
+				verifhook.Point("dispatch.action")
 
 				switch task.Type {
 				case core.TestTask:
